@@ -546,3 +546,13 @@ mod tests {
         assert_eq!(assignments[&FileId::new(0, 4)], ThunkBlockId(1));
     }
 }
+
+/// Verification-only access to the module-private block assignment (see `verif_api.rs`).
+#[cfg(wild_verif)]
+pub(crate) fn verif_assign_thunk_blocks(
+    objects: impl Iterator<Item = (FileId, u64, u64)>,
+    max_branch_range: u64,
+    assign: impl FnMut(FileId, ThunkBlockId, bool),
+) -> usize {
+    assign_thunk_blocks(objects, max_branch_range, assign)
+}
